@@ -7,6 +7,7 @@ start > 0 from base start-1 in the low nibble, right flank ⇔ start+len < read 
 nibble, none at a read end); Vmer::from_slice writes every base; plus the minimizer scan itself (C07's abstract scan and
 order tables: the same p-mer wins in every k-mer that contains it)."""
 from .. import dt_msp, lemmas
+from . import common
 
 ASSUMPTIONS = ["that two occurrences of one k-mer see the same minimizer follows from C07's clauses (minimal p-mer, ties to the larger position) and is not re-derived here"]
 
@@ -21,3 +22,6 @@ def run(F, rep):
     rep.run(lemmas.lmer_lemmas, F, rep, which={"from_slice"})
     rep.run(dt_msp.minpos_order_tables, F, rep, "C08.6")
     rep.run(dt_msp.scan_tables, F, rep, "C08.6")
+    # the bucket id of a piece is the rank of min_rc of its minimizer when reverse-complement mode is on (MspIntervalP::bucket): the
+    # canonical-form tables for every k-mer type usable as p-mer (odd P included)
+    rep.run(common.run_kmer_lemmas, F, rep, {"canon"})
